@@ -794,6 +794,13 @@ func (r *relayRig) addReq(i int) {
 		// resource, and the same prefix to cut
 		q.path = []string{"/%61pi", "/ap%69", "/%41PI"}[st.Draw(3)] + q.path[4:]
 	}
+	if pick(12) {
+		// bytes a client should have escaped and did not (raw UTF-8 as curl sends it, a double quote):
+		// the server accepts and routes such a target; escaping them on the way changes nothing, the
+		// escapes the client did write stay as they are
+		q.path = "/api" + []string{"/caf\xc3\xa9/a%2Fb", "/say\"hi\"/a%2Fb", "/a%2Fb/\xe2\x82\xac", "/x|y/%7Euser"}[st.Draw(4)]
+		r.c.Probe("request-target-with-unescaped-bytes")
+	}
 	if r.pathRule && pick(20) {
 		// the decoded path contains a line feed: as a header value it is refused by the transport
 		q.path = "/api/a%0Ab"
@@ -1151,6 +1158,7 @@ func (r *relayRig) judge() {
 			if rest, ok := cutEscapedPrefix(q.path, r.without); r.without != "" && ok {
 				wantPath = rest
 			}
+			wantPath = escapeStray(wantPath)
 			wantTarget := joinSlash(r.base, wantPath)
 			if wantTarget == "" {
 				wantTarget = "/"
@@ -1394,6 +1402,21 @@ func cutEscapedPrefix(raw, prefix string) (string, bool) {
 		return raw, false
 	}
 	return raw[i:], true
+}
+
+// escapeStray percent-encodes the bytes of an encoded path that may not stand in one unescaped
+// (what net/url objects to), leaving everything else, the client's own escapes included, alone.
+func escapeStray(p string) string {
+	var b strings.Builder
+	for i := 0; i < len(p); i++ {
+		c := p[i]
+		if c >= 0x80 || c <= 0x20 || strings.IndexByte("\"<>^`{|}\\", c) >= 0 {
+			fmt.Fprintf(&b, "%%%02X", c)
+		} else {
+			b.WriteByte(c)
+		}
+	}
+	return b.String()
 }
 
 func joinSlash(a, b string) string {
